@@ -213,17 +213,31 @@ def _mutate(w, tape, n):
          "trainable": tape.get("trainable")}
     wires = list(range(n))
     all_sites = list(_param_sites(t["ops"]))
-    sites = [(pth, leaf) for pth, leaf in all_sites if not isinstance(leaf[2][0], dict)]
+    sites = [(pth, leaf) for pth, leaf in all_sites if all(isinstance(x, (int, float)) for x in leaf[2])]
     arr_sites = [(pth, leaf) for pth, leaf in all_sites if isinstance(leaf[2][0], dict)]
     arr_obs = [i for i, m in enumerate(t["mps"]) if m[0] == "expval" and m[1][0] in ("HB", "SPH")]
     kind = w.choice(["dup", "shift", "shift", "shift", "relabel", "trainable", "wrap", "unwrap",
-                     "measure", "measure", "delta", "swapops", "rename", "wrap_shift", "ctrl_perm", "obs_delta"])
+                     "measure", "measure", "delta", "swapops", "rename", "wrap_shift", "ctrl_perm", "obs_delta", "as_batch1"])
     multi_ctrl = [i for i, o in enumerate(t["ops"]) if o[0] == "ctrl" and len(o[2]) >= 2]
     if multi_ctrl and w.random() < 0.5:
         kind = "ctrl_perm"
     if (arr_sites or arr_obs) and w.random() < 0.6:
         kind = "arr_bump"
     if kind == "dup":
+        return t, kind
+    if kind == "as_batch1":
+        # the same value handed over as a one-element array: a parameter broadcast of size one, whose results
+        # carry an extra leading axis
+        if sites:
+            path, leaf = w.choice(sites)
+            j = w.randrange(len(leaf[2]))
+
+            def fn_b(o):
+                p_ = list(o[2])
+                p_[j] = [p_[j]]
+                return [o[0], o[1], p_]
+
+            t["ops"][path[0]] = _replace_leaf(t["ops"][path[0]], fn_b)
         return t, kind
     if kind == "obs_delta":
         # the same circuit, one coefficient of the measured observable changed a little
@@ -420,7 +434,8 @@ def gen_case(streams, tier):
     if iface != "numpy":
         entry = "execute"
     return {"n_wires": n, "store": store, "entry": entry, "pool": pool, "calls": calls,
-            "mutators": mutators, "iface": iface, "diff": diff}
+            "mutators": mutators, "iface": iface, "diff": diff,
+            "buffer_sweep": bool(big and iface == "numpy" and w.random() < 0.5)}
 
 
 # ------------------------------------------------------------------------------------------------
@@ -481,14 +496,28 @@ def run_case(case):
     results_log = []
     objs = {}
 
+    sweep = bool(case.get("buffer_sweep"))
+    bufs = {}
+
     def tape_obj(i):
+        if sweep:
+            # parameter sweep: every circuit is built anew from arrays that live in one reused buffer per
+            # operator (refilled in place); circuits built earlier are not used again
+            qgen.ARRAY_BUFFERS = bufs
+            try:
+                return build_tape(case["pool"][i]) if not case["pool"][i].get("derive") else _tape_obj(i)
+            finally:
+                qgen.ARRAY_BUFFERS = None
+        return _tape_obj(i)
+
+    def _tape_obj(i):
         """Tape OBJECTS persist over the history (as a user's would): the fingerprint of a tape that was
         executed before is memoised, and derived tapes are made from those objects with tape.copy()."""
         if i not in objs:
             spec = case["pool"][i]
             d = spec.get("derive")
             if d:
-                src = tape_obj(d["from"])
+                src = _tape_obj(d["from"])
                 if "map_wires" in d:
                     src.hash  # the source has been fingerprinted, as after an execution
                     (objs[i],), _ = qp.map_wires(src, {int(a): b for a, b in d["map_wires"].items()})
@@ -545,7 +574,7 @@ def run_case(case):
         # for the known-finding signature a "duplicate" is what the cache takes for one: an equal fingerprint
         # (two tapes 4*pi apart in an angle are distinct by content and one entry for the cache)
         try:
-            hkeys = [tape_obj(i).hash for i in call["tapes"]]
+            hkeys = keys if sweep else [tape_obj(i).hash for i in call["tapes"]]
         except Exception:  # noqa: BLE001 - hashing itself fails: reported below through the execution
             hkeys = keys
         distinct_in_batch = len(set(hkeys))
@@ -568,8 +597,13 @@ def run_case(case):
             if case["entry"] == "qnode":
                 got = [_qnode_call(specs[0], dev, cache, cachesize)]
             else:
-                got = list(qp.execute([tape_obj(i) for i in call["tapes"]], dev, diff_method=diff,
-                                      cache=cache, cachesize=cachesize))
+                if sweep:
+                    # one circuit at a time: the next one reuses (overwrites) the previous one's buffers
+                    got = [qp.execute([tape_obj(i)], dev, diff_method=diff, cache=cache, cachesize=cachesize)[0]
+                           for i in call["tapes"]]
+                else:
+                    got = list(qp.execute([tape_obj(i) for i in call["tapes"]], dev, diff_method=diff,
+                                          cache=cache, cachesize=cachesize))
             got = qgen.to_jsonable(got)
         except Exception as e:  # noqa: BLE001 - observation
             results_log.append(["raise", type(e).__name__])
@@ -623,6 +657,8 @@ def run_case(case):
     counters["store:" + st["kind"]] = 1
     counters["entry:" + case["entry"]] = 1
     counters["iface:" + iface + ("+backprop" if diff else "")] = 1
+    if sweep:
+        counters["parameter_sweeps_through_one_buffer"] = 1
     if case["n_wires"] >= 5:
         counters["cases_with_large_array_parameters"] = 1
     for k, v in case.get("mutators", {}).items():
